@@ -156,7 +156,8 @@ def queries_for(pid):
     size = lambda i: S[i]
     if pid == 'C02':
         return [('name from R0 where size between 7 and 12', lambda v, k: _rows([i for i in v if 7 <= S[i] <= 12], [name]), False),
-                ("name from R0 where name === 'bb' or size >= 300", lambda v, k: _rows([i for i in v if N[i] == 'bb' or S[i] >= 300], [name]), False)]
+                ("name from R0 where name === 'bb' or size >= 300", lambda v, k: _rows([i for i in v if N[i] == 'bb' or S[i] >= 300], [name]), False),
+                ("name, '' from R0 where name !== '' and not name === ''", lambda v, k: [[N[i], ''] for i in v], False)]
     if pid == 'C03':
         return [('name from R0 where not (size > 6 or is_dir = true)', lambda v, k: _rows([i for i in v if not (S[i] > 6 or k[i])], [name]), False),
                 ('name from R0 where not size > 6 and not is_dir', lambda v, k: _rows([i for i in v if not S[i] > 6 and not k[i]], [name]), False),
@@ -172,7 +173,8 @@ def queries_for(pid):
         return [('name from R0 limit 2', sub(2), False),
                 ('name from R0 limit 1', sub(1), False),
                 ('name, size from R0 order by size desc, name limit 2', lambda v, k: _rows(sorted(v, key=lambda i: (-S[i], N[i].encode()))[:2], [name, size]), True),
-                ("name, 'x' from R0", lambda v, k: [[N[i], 'x'] for i in v], False)]
+                ("name, 'x' from R0", lambda v, k: [[N[i], 'x'] for i in v], False),
+                ('size, count(*) from R0 group by size order by size limit 1', lambda v, k: [[str(min(S[i] for i in v)), str(len([i for i in v if S[i] == min(S[j] for j in v)]))]], True)]
     if pid == 'C08':
         def grp(keyf):
             def f(v, k):
@@ -188,6 +190,17 @@ def queries_for(pid):
         return [('name, size * 2 + 1, -size, size - 100 from R0', lambda v, k: _rows(v, [name, lambda i: S[i] * 2 + 1, lambda i: -S[i], lambda i: S[i] - 100]), False),
                 ('size - 1, size + 1, (size + 1) * 2, size + 1 * 2 from R0', lambda v, k: _rows(v, [lambda i: S[i] - 1, lambda i: S[i] + 1, lambda i: (S[i] + 1) * 2, lambda i: S[i] + 2]), False),
                 ('name from R0 where size % 7 = 0 and size / 7 >= 1', lambda v, k: _rows([i for i in v if S[i] % 7 == 0 and S[i] / 7 >= 1], [name]), False)]
+    if pid == 'C16':
+        return [("upper(name), length(name), substr(name, 2, 2), concat(name, '-', size) from R0",
+                 lambda v, k: _rows(v, [lambda i: N[i].upper(), lambda i: len(N[i]), lambda i: N[i][1:3], lambda i: N[i] + '-' + str(S[i])]), False),
+                ("name, coalesce('', name), lower(upper(name)), substr(name, -1) from R0 where length(name) >= 2",
+                 lambda v, k: _rows([i for i in v if len(N[i]) >= 2], [name, name, lambda i: N[i].lower(), lambda i: N[i][-1:]]), False)]
+    if pid == 'C11':
+        ref1 = lambda v, k: _rows(sorted([i for i in v if S[i] >= 7], key=lambda i: (-S[i], N[i].encode())), [name, size])
+        return [('name, size from R0 where size >= 7 order by size desc, name', ref1, True),
+                ('SELECT NAME, SIZE FROM R0 WHERE SIZE GTE 7 ORDER BY 2 DESC, 1 ASC', ref1, True),
+                ('select name size from R0 where {size ge 7} order by size desc name', ref1, True),
+                ('name, size from R0 where not size lt 7 order by 2 desc, name', ref1, True)]
     raise KeyError(pid)
 
 
